@@ -8,13 +8,14 @@
 package main
 
 import (
-	"regexp"
-	"strconv"
+	"context"
 	"encoding/json"
 	"fmt"
 	"os"
 	"os/exec"
+	"regexp"
 	"sort"
+	"strconv"
 	"strings"
 	"sync"
 	"time"
@@ -25,15 +26,15 @@ import (
 )
 
 type Shard struct {
-	Scenario string `json:"scenario"`
-	Pre      int    `json:"pre"`
-	Fault    int    `json:"fault"`
-	NoCache  bool   `json:"nocache,omitempty"`
-	Delay    bool   `json:"delay,omitempty"` // delay bounding: "pre" counts deviations from the deterministic scheduler
-	MaxExecs int64  `json:"maxexecs,omitempty"`
-	DeadS    int    `json:"deadline_s,omitempty"`
-	Seed     uint64 `json:"seed,omitempty"`
-	Part     int      `json:"part,omitempty"`  // this shard explores the first-level branches with index Part modulo Parts
+	Scenario string   `json:"scenario"`
+	Pre      int      `json:"pre"`
+	Fault    int      `json:"fault"`
+	NoCache  bool     `json:"nocache,omitempty"`
+	Delay    bool     `json:"delay,omitempty"` // delay bounding: "pre" counts deviations from the deterministic scheduler
+	MaxExecs int64    `json:"maxexecs,omitempty"`
+	DeadS    int      `json:"deadline_s,omitempty"`
+	Seed     uint64   `json:"seed,omitempty"`
+	Part     int      `json:"part,omitempty"` // this shard explores the first-level branches with index Part modulo Parts
 	Parts    int      `json:"parts,omitempty"`
 	Bounds   [][2]int `json:"bounds,omitempty"` // successive (preemption, fault) bounds explored with one shared state cache; default [[pre,fault]]
 }
@@ -290,11 +291,21 @@ func drive(id string) int {
 			sh := shards[i]
 			sh.Seed = uint64(c.Seed)
 			js, _ := json.Marshal(sh)
-			cmd := exec.Command(os.Args[0], "shard", string(js))
+			// a shard stops by itself at its deadline; one that is still there long after it is stuck inside an execution (an
+			// operation of the code under test that the shims do not control): it is killed and reported as a machinery failure
+			limit := time.Duration(sh.DeadS)*2*time.Second + 3*time.Minute
+			cctx, ccancel := context.WithTimeout(context.Background(), limit)
+			cmd := exec.CommandContext(cctx, os.Args[0], "shard", string(js))
 			cmd.Env = append(os.Environ(), "GOMAXPROCS=1")
 			var stderr strings.Builder
 			cmd.Stderr = &stderr
 			out, err := cmd.Output()
+			hung := cctx.Err() == context.DeadlineExceeded
+			ccancel()
+			if hung {
+				errs[i] = fmt.Sprintf("shard %s: still running %s after its start (deadline %d s): killed; an execution is stuck outside the controlled scheduler", js, limit, sh.DeadS)
+				return
+			}
 			if err != nil {
 				errs[i] = fmt.Sprintf("shard %s: %v: %s", js, err, tail(stderr.String(), 2000))
 				return
